@@ -99,6 +99,8 @@ def malformed(rng):
 def run(chk):
     chk.build(["theories/Corr/C02.vo", "theories/Props/C02.vo"])
     chk.props("theories/Props/C02.v", THEOREMS)
+    if chk.tier == "thorough":
+        chk.coqchk(["Ford.Props.C02"])
     rng = chk.rng
     quick = chk.tier == "quick"
     work = tempfile.mkdtemp(prefix="verif_c02_")
